@@ -217,7 +217,7 @@ func checkC08(cx *Ctx, r *Report) {
 	}
 	// the reply of one request cannot be overwritten or prefixed by another request's (pooled buffers)
 	cx.checkPoolEscape(r)
-	r.Min("R-EMIT", 14)
+	r.Min("R-EMIT", 4)
 }
 
 func stepName(cx *Ctx, s *Step) string {
